@@ -38,11 +38,12 @@ CHUNK = 370
 
 
 def bounds(tier):
+  planets = '%d planets (rotation, gravity as multiples of Earth: %s) evaluated one after the other in ONE process on equal grids, depth-2 lattice each' % (len(PLANETS), [list(p) for p in PLANETS])
   if tier == 'quick':
-    return dict(dry_lattice='K=3 irregular levels, lmax=1, depth 3 (7,770 states) on with_wavenumbers(7,cubic), real layout',
+    return dict(planet_sequences=planets, dry_lattice='K=3 irregular levels, lmax=1, depth 3 (7,770 states) on with_wavenumbers(7,cubic), real layout',
                 moist_lattice='depth 2 x 3 humidity fields', balanced='rest: every orography mode l<=L-2 + pairwise sums x 3 T0; solid body U in {-0.02,0.02,0.07} x A/B x 4 reference profiles x dry/moist',
                 shallow_water='depth-2 lattice K in 1..3; jets cos(lat)*mu^p, p<=3, and pairwise sums, K in 1..3')
-  return dict(dry_lattice='K=3 lmax=2 depth 3 (105,995 states) + K=5 lmax=1 depth 3, real + fast layouts',
+  return dict(planet_sequences=planets, dry_lattice='K=3 lmax=2 depth 3 (105,995 states) + K=5 lmax=1 depth 3, real + fast layouts',
               moist_lattice='depth 3 x 3 humidity fields', balanced='as quick plus a second grid and equiangular spacing',
               shallow_water='depth-3 lattice K in 1..3; jets as quick on two grids')
 
@@ -69,6 +70,10 @@ def units(tier, seed):
       for start in range(0, total, CHUNK):
         us.append(dict(kind='lattice', cfg=cfg, start=start, stop=min(total, start + CHUNK), palette=p))
     us.append(dict(kind='degree', cfg=cfg, palette=pal[0]))
+  # several planets in one process on equal grids: rotation rate (incl. zero and retrograde) and gravity are constants of
+  # the physics specs, not of the grid; nothing may be remembered from the planet evaluated before
+  for cls in (('PrimitiveEquations',) if tier == 'quick' else ('PrimitiveEquations', 'MoistPrimitiveEquations')):
+    us.append(dict(kind='planets', cls=cls, palette=pal[0], depth=2))
   # moist lattice: dry-state lattice of smaller depth crossed with 3 humidity fields
   mdepth = 2 if tier == 'quick' else 3
   mcfg = dict(name='moist_K3_l1', cls='MoistPrimitiveEquations', K=3, bounds=IRREGULAR3, lmax=1, depth=mdepth, shape=[7, 8, 36, 18],
@@ -138,6 +143,49 @@ def _lattice_setup(cfg):
   msets = harness.multisets(len(alphabet), cfg['depth'])
   _CACHE[key] = (shape, impl, specs, coords, orog, eq, ftot, ref, alphabet, msets)
   return _CACHE[key]
+
+
+PLANETS = ((1.0, 1.0), (2.5, 1.0), (0.0, 1.0), (-1.0, 0.7), (1.0, 1.0))      # (rotation rate, gravity) as multiples of the Earth values
+
+
+def _planets_unit(unit, rec):
+  import jax
+  from dinosaur import primitive_equations as pe
+  from dinosaur import scales
+  cls = unit['cls']; pal = unit['palette']
+  moist = cls.startswith('Moist')
+  shape = (7, 8, 36, 18) if moist else tuple(harness.with_wavenumbers_shape(7, 'cubic'))
+  M, L = shape[0], shape[1]
+  K = 3
+  alphabet = harness.pe_alphabet(K, 1, M)
+  msets = harness.multisets(len(alphabet), unit['depth'])
+  st = harness.states_from_multisets(alphabet, msets, K, M, L, pal)
+  tref = np.asarray(TREF3); tabs = np.asarray(TABS3)
+  temp_var = st['temperature'].copy(); temp_var[:, :, 0, 0] += harness.SQRT4PI * (tabs - tref)
+  temp_abs = st['temperature'].copy(); temp_abs[:, :, 0, 0] += harness.SQRT4PI * tabs
+  orog = _orography(M, L)
+  B = len(msets)
+  tracers = {}
+  if moist:
+    q = np.zeros((B, K, 2 * M - 1, L)); q[:, :, 0, 0] = 0.008 * harness.SQRT4PI; q[:, 1, 1, 1] = 1.5e-3
+    tracers['specific_humidity'] = q
+  sel = slice(0, L - 1)
+  for pi, (fo, fg) in enumerate(PLANETS):
+    specs = pe.PrimitiveEquationsSpecs.from_si(angular_velocity_si=fo * scales.ANGULAR_VELOCITY, gravity_acceleration_si=fg * scales.GRAVITY_ACCELERATION)
+    coords = harness.make_coords(shape, IRREGULAR3, impl='real', radius=specs.radius)
+    eq = harness.make_pe(cls, coords, tref, orog, specs, impl='real')
+    state = harness.pe_state(cls, coords, 'real', st['vorticity'], st['divergence'], temp_var, st['lnps'], tracers=tracers,
+                             sim_time=np.zeros(B) if cls != 'PrimitiveEquations' else 0.0)
+    got = harness.pe_tendency_to_real(jax.vmap(harness.total_tendency_fn(eq))(state), shape, 'real')
+    ref = harness.ref_pe_for(shape, IRREGULAR3, specs, degree=1, moist=moist, **(dict(nlat=40, nlon=48) if moist else {}))
+    want = ref.tendency(st['vorticity'], st['divergence'], temp_abs, st['lnps'], orog, q=tracers.get('specific_humidity'))
+    key = ('planets', cls, pi, [fo, fg], pal)
+    base = max(1.0, specs.g * np.abs(orog).max() * L * (L + 1), specs.R * tabs.max() * L * (L + 1) * 0.05)
+    scales_ = dict(vorticity=base, divergence=base, temperature=tabs.max(), lnps=1.0)
+    rec.case(key, transitions=B, outcome=got['vorticity'].tobytes(), sample={'class': cls, 'planet_index_in_process': pi, 'rotation_x_earth': fo, 'gravity_x_earth': fg, 'states': B})
+    for f in ('vorticity', 'divergence', 'temperature', 'lnps'):
+      rec.close(got[f][..., sel], want[f][..., sel], scale=scales_[f], C=1e5, site='tendency_vs_continuous_equations[planet sequence]:' + f, key=key,
+                sig={'planet': pi})
 
 
 def _lattice_unit(unit, rec):
@@ -481,6 +529,8 @@ def work(unit, rec):
     _lattice_unit(unit, rec)
   elif k == 'degree':
     _degree_unit(unit, rec)
+  elif k == 'planets':
+    _planets_unit(unit, rec)
   elif k == 'moist':
     _moist_unit(unit, rec)
   elif k == 'rest':
